@@ -9,6 +9,7 @@
         GGlob  the process-global generators (random, numpy.random, torch)
         GHash  the per-process string-hash salt (set / dict-of-str iteration order, hash(..))
         GEnt   operating-system entropy (a generator constructed without a seed)
+        GCarry the state an object-level generator was left in by EARLIER calls on the same object
       with `run` threading one stream per source;
    3. the seed derivation  obj_seed = digest o hash  over a small universe of Python values. *)
 From Coq Require Import String List Bool Arith ZArith.
@@ -25,15 +26,17 @@ Inductive kind :=
 | KUnseeded             (* generator constructed without a seed *)
 | KHashOrder            (* iteration over a set (hash order) *)
 | KHash                 (* hash(..) of an arbitrary object *)
-| KHashDerivedSeed.     (* seed computed from hash(..) (obj_seed) *)
+| KHashDerivedSeed      (* seed computed from hash(..) (obj_seed) *)
+| KPersistentAcrossCalls. (* generator constructed OUTSIDE the per-call entry point (in __init__ / a cached property) and
+                             consumed by plan_on / train_on: its state carries over to the next call on the same object *)
 
 Record site := mkSite { s_comp : string; s_file : string; s_line : nat; s_kind : kind; s_what : string }.
 
-Inductive gen := GPriv | GGlob | GHash | GEnt.
+Inductive gen := GPriv | GGlob | GHash | GEnt | GCarry.
 
 Definition gen_eqb (a b : gen) : bool :=
   match a, b with
-  | GPriv, GPriv | GGlob, GGlob | GHash, GHash | GEnt, GEnt => true
+  | GPriv, GPriv | GGlob, GGlob | GHash, GHash | GEnt, GEnt | GCarry, GCarry => true
   | _, _ => false
   end.
 
@@ -53,17 +56,21 @@ Definition resolve (c : config) (k : kind) : gen :=
   | KGlobalIfSeedFalsy => if seed_given c && negb (seed_falsy c) then GPriv else GGlob
   | KUnseeded => GEnt
   | KHashOrder | KHash | KHashDerivedSeed => GHash
+  | KPersistentAcrossCalls => GCarry
   end.
 
 Definition uses_global (k : kind) : bool :=
   match k with KGlobal | KGlobalIfSeedFalsy | KUnseeded => true | _ => false end.
 Definition uses_hash (k : kind) : bool :=
   match k with KHashOrder | KHash | KHashDerivedSeed => true | _ => false end.
-Definition is_private (k : kind) : bool := negb (uses_global k || uses_hash k).
+Definition uses_carried (k : kind) : bool :=
+  match k with KPersistentAcrossCalls => true | _ => false end.
+Definition is_private (k : kind) : bool := negb (uses_global k || uses_hash k || uses_carried k).
 
 Definition site_private (s : site) : bool := is_private (s_kind s).
 Definition site_global (s : site) : bool := uses_global (s_kind s).
 Definition site_hash (s : site) : bool := uses_hash (s_kind s).
+Definition site_carried (s : site) : bool := uses_carried (s_kind s).
 
 Definition sites_of (tbl : list site) (c : string) : list site :=
   filter (fun s => String.eqb (s_comp s) c) tbl.
@@ -72,6 +79,7 @@ Definition kind_code (k : kind) : nat :=
   match k with
   | KPrivate => 0 | KParamDefaultGlobal => 1 | KGlobalIfSeedNone => 2 | KAuditedOrderFree => 3
   | KGlobal => 4 | KGlobalIfSeedFalsy => 5 | KUnseeded => 6 | KHashOrder => 7 | KHash => 8 | KHashDerivedSeed => 9
+  | KPersistentAcrossCalls => 10
   end.
 
 (* what the harness prints for a component: (all private?, uses a global generator?, depends on hash order?,
@@ -82,7 +90,7 @@ Definition offenders (tbl : list site) (c : string) : list (string * nat * nat *
 
 Definition component_report (tbl : list site) (c : string) :=
   let l := sites_of tbl c in
-  (forallb site_private l, existsb site_global l, existsb site_hash l, length l, offenders tbl c).
+  (forallb site_private l, existsb site_global l, existsb site_hash l, existsb site_carried l, length l, offenders tbl c).
 
 (* ------------------------------------------------------------------ 2. programs *)
 Definition stream := nat -> nat.
